@@ -53,7 +53,7 @@ func c16Same(got, want *z.StructSchema, in map[string]any, d1, d2 *c16Dest) bool
 
 func C16_Jobs() []string {
 	var out []string
-	for _, op := range []string{"pick", "omit", "extend", "merge", "pick-map", "omit-map", "chain"} {
+	for _, op := range []string{"pick", "omit", "extend", "merge", "merge3", "transforms", "pick-map", "omit-map", "chain"} {
 		for k := 0; k <= 3; k++ {
 			out = append(out, op+"/t"+string(rune('0'+k)))
 		}
@@ -143,6 +143,54 @@ func C16_Run(job string) {
 		check(base, hand([]string{"a", "b", "c"}), "C16:derivation-modified-its-operand")
 		wantOther := z.Struct(z.Schema{"d": c16Field(td), "a": c16Field(td)}).Test(c16Test("o0"))
 		check(other, wantOther, "C16:derivation-modified-its-operand")
+	case "merge3":
+		// variadic Merge: fields, tests and PostTransforms of every operand, in order
+		log := ""
+		pt := func(tag string) z.PostTransform {
+			return func(p any, ctx z.Ctx) error { log += tag; return nil }
+		}
+		o1 := z.Struct(z.Schema{"d": c16Field(td)}).Test(c16Test("o1")).PostTransform(pt("1"))
+		o2 := z.Struct(z.Schema{"a": c16Field(td)}).Test(c16Test("o2")).PostTransform(pt("2"))
+		bt := mkBase().PostTransform(pt("B"))
+		x := bt.Merge(o1, o2)
+		check(x, hand([]string{"a2", "b", "c", "d"}, "o1", "o2"), "C16:merge-differs-from-handwritten")
+		// transforms only run on success: a merged schema without tests on passing input
+		clean := z.Struct(z.Schema{"b": z.Int()}).PostTransform(pt("B"))
+		c1 := z.Struct(z.Schema{"c": z.Int()}).PostTransform(pt("1"))
+		c2 := z.Struct(z.Schema{"d": z.Int()}).PostTransform(pt("2"))
+		c3 := z.Struct(z.Schema{"a": z.Int()}).PostTransform(pt("3"))
+		log = ""
+		var dd c16Dest
+		errs := clean.Merge(c1, c2, c3).Parse(in, &dd)
+		v.Assert(errs == nil && log == "B123", "C16:merge-lost-or-reordered-transforms")
+		log = ""
+		clean.Parse(in, &dd)
+		c3.Parse(in, &dd)
+		v.Assert(log == "B3", "C16:derivation-modified-its-operand")
+	case "transforms":
+		// Pick/Omit/Extend keep the struct-level PostTransforms; later additions stay local
+		log := ""
+		pt := func(tag string) z.PostTransform {
+			return func(p any, ctx z.Ctx) error { log += tag; return nil }
+		}
+		b0 := z.Struct(z.Schema{"a": z.Int(), "b": z.Int(), "c": z.Int()})
+		for i := 0; i < k; i++ {
+			b0 = b0.PostTransform(pt(string(rune('0' + i))))
+		}
+		x := b0.Pick("a").PostTransform(pt("x"))
+		y := b0.Omit("a").PostTransform(pt("y"))
+		w := b0.Extend(z.Schema{"d": z.Int()}).PostTransform(pt("w"))
+		b1 := b0.PostTransform(pt("L"))
+		prefix := ""
+		for i := 0; i < k; i++ {
+			prefix += string(rune('0' + i))
+		}
+		var dd c16Dest
+		run := func(s *z.StructSchema) string { log = ""; s.Parse(in, &dd); return log }
+		v.Assert(run(x) == prefix+"x", "C16:derived-schemas-influence-each-other")
+		v.Assert(run(y) == prefix+"y", "C16:derived-schemas-influence-each-other")
+		v.Assert(run(w) == prefix+"w", "C16:derived-schemas-influence-each-other")
+		v.Assert(run(b1) == prefix+"L", "C16:derivation-modified-its-operand")
 	case "chain":
 		// derive, extend the derived schema, derive again from both
 		x := base.Omit("c")
